@@ -892,6 +892,13 @@ def o_isolation(w, tr):
         return out
     if w.sched.outcome != 'ok':
         return out
+    # "... never changes the bytes or the result of another" / "a new transfer still succeeds": the
+    # byte-exactness clauses of C01/C02 for every transfer that was not itself faulted or cancelled
+    import re as _re
+    for sig, msg in o_exact(w, tr):
+        m = _re.match(r'transfer (\d+)', msg)
+        if m and int(m.group(1)) not in victims and len(w.transfers) > 1:
+            out.append(('C18:bystander-bytes-wrong:' + sig.split(':', 1)[1], msg))
     for info in w.transfers:
         idx = info['idx']
         if idx in victims:
